@@ -114,6 +114,43 @@ type c18entry struct {
 	why      string
 }
 
+// c18Builder: v is the result of a call to a parameterless, straight-line repository function that returns a map it
+// made itself, and that call is the function's only call site in the repository.
+func c18Builder(c *core.Ctx, v ssa.Value) (*ssa.MakeMap, *ssa.Function) {
+	call, ok := v.(*ssa.Call)
+	if !ok {
+		return nil, nil
+	}
+	g := call.Call.StaticCallee()
+	if g == nil || g.Blocks == nil || len(g.Blocks) != 1 || len(g.Params) != 0 || !core.InRepo(core.FuncPkg(g)) {
+		return nil, nil
+	}
+	rets := c19Returns(g)
+	if len(rets) != 1 || len(rets[0].Results) != 1 {
+		return nil, nil
+	}
+	mm, ok := rets[0].Results[0].(*ssa.MakeMap)
+	if !ok {
+		return nil, nil
+	}
+	sites := 0
+	for _, f := range c.RepoFunctions() {
+		for _, b := range f.Blocks {
+			for _, in := range b.Instrs {
+				for _, op := range in.Operands(nil) {
+					if *op == ssa.Value(g) {
+						sites++
+					}
+				}
+			}
+		}
+	}
+	if sites != 1 {
+		return nil, nil
+	}
+	return mm, g
+}
+
 // c18Factory: the table value is the result of calling a repository function that returns a closure over (only) its
 // own parameters; returns the closure body and, per free variable, the argument passed at this call.
 func c18Factory(v ssa.Value) (*ssa.Function, map[*ssa.FreeVar]ssa.Value) {
@@ -327,6 +364,14 @@ func runC18(c *core.Ctx) {
 				case *ssa.Store:
 					isInit := f.Synthetic != "" && f.Name() == "init" && core.FuncPkg(f) == hp.Types && x.Addr == ssa.Value(table)
 					mm, isMake := x.Val.(*ssa.MakeMap)
+					viaBuilder := ""
+					if !isMake && isInit {
+						// a table built by a straight-line function that is called only from this initialiser is the
+						// same as a literal
+						if bm, g := c18Builder(c, x.Val); bm != nil {
+							mm, isMake, viaBuilder = bm, true, " (built by "+core.FuncKey(g)+", called only from the initialiser)"
+						}
+					}
 					if !isInit || !isMake {
 						tableOK = false
 						c.Bad("R18a", key, core.InstrPos(in), "the decoder table is assigned outside the package initialiser (or not from a map literal): its key set is no longer a static fact")
@@ -355,12 +400,17 @@ func runC18(c *core.Ctx) {
 							entries[ks] = e
 							keys = append(keys, ks)
 						case *ssa.Store, *ssa.DebugRef:
+						case *ssa.Return:
+							if viaBuilder == "" {
+								tableOK = false
+								c.Bad("R18a", key, core.InstrPos(u), "the map literal of the decoder table is used by something other than its own initialisation")
+							}
 						default:
 							tableOK = false
 							c.Bad("R18a", key, core.InstrPos(u), "the map literal of the decoder table is used by something other than its own initialisation")
 						}
 					}
-					c.OK("R18a", key, core.InstrPos(in), "package initialiser stores the map literal")
+					c.OK("R18a", key, core.InstrPos(in), "package initialiser stores the map literal"+viaBuilder)
 				case *ssa.UnOp:
 					good := x.Op == token.MUL
 					for _, u := range core.Referrers(x) {
